@@ -114,7 +114,6 @@ var engCases = []engCase{
 	{"range-value-alias", prelude + `func f(xs []S) { for i, n := range xs { if n.P == nil { xs[i].P = &S{} }; mark() } }`, "f", `xs[i].P != nil`, true},
 }
 
-
 const poolOK = prelude + `type Cfg struct{ MaxPool, MinPool, MinENI, MaxENI int; CRD bool }
 type PC struct{ Batch, MaxPool, MinPool, Capacity, MaxENI int }
 func g(cfg *Cfg, mode string, adapters, per int) *PC {
